@@ -109,4 +109,61 @@ example : mkPage 23 5 5 = .ok ⟨23, 5, 5, 20, 3⟩ ∧ mkPage 23 9 5 = .ok ⟨2
     mkPage 23 2 5 = .ok ⟨23, 5, 2, 5, 5⟩ ∧ mkPage 0 1 10 = .ok ⟨0, 0, 0, 0, 0⟩ ∧
     mkPage 7 0 5 = .error .valueError ∧ mkPage 7 1 0 = .error .zeroDivisionError := by decide
 
+
+/-- **C14.page (slice).** "A page is the corresponding slice of the ranking": for every exhaustive
+    ranking, `search_page(q, pagenum, pagelen)` — the first `pagenum·pagelen` hits (what the limited
+    search returns, C05), cut to `[offset, offset + page.pagelen)` — is the ranking from `offset` on,
+    at most `pagelen` long, with `offset = (min(pagecount, pagenum) - 1)·pagelen`. -/
+theorem page_slice {α : Type} (ranking : List α) (pagenum pagelen : Nat) (hl : 1 ≤ pagelen) (hn : 1 ≤ pagenum) :
+    ∃ p, mkPage ranking.length pagenum pagelen = .ok p ∧
+      p.offset = (min ((ranking.length + pagelen - 1) / pagelen) pagenum - 1) * pagelen ∧
+      pageHits ranking pagenum pagelen = .ok ((ranking.drop p.offset).take pagelen) := by
+  obtain ⟨p, hp, h1, h2, h3, h4, h5, h6, h7⟩ := page_fields ranking.length pagenum pagelen hl hn
+  have hpc : p.pagecount = (ranking.length + pagelen - 1) / pagelen := by
+    have h1' : ¬ pagenum < 1 := by omega
+    have h2' : ¬ pagelen = 0 := by omega
+    simp only [mkPage, h1', h2', if_false] at hp
+    cases hp; rfl
+  refine ⟨p, hp, by rw [h5, h4, hpc], ?_⟩
+  simp only [pageHits, hp]
+  congr 1
+  rw [List.drop_take, List.take_take, List.take_eq_take_iff, List.length_drop]
+  -- arithmetic on the products, as atoms
+  have hle : p.pagenum * pagelen ≤ pagenum * pagelen :=
+    Nat.mul_le_mul_right _ (by rw [h4]; exact Nat.min_le_right _ _)
+  have hsucc : 1 ≤ p.pagenum → (p.pagenum - 1) * pagelen + pagelen = p.pagenum * pagelen := by
+    intro h
+    rw [pred_mul]
+    have : pagelen ≤ p.pagenum * pagelen := by
+      calc pagelen = 1 * pagelen := (Nat.one_mul _).symm
+        _ ≤ p.pagenum * pagelen := Nat.mul_le_mul_right _ h
+    omega
+  have hzero : p.pagenum = 0 → ranking.length = 0 := by
+    intro h
+    have : p.pagecount = 0 := by
+      rw [h4] at h
+      rcases Nat.le_total p.pagecount pagenum with h' | h'
+      · rw [Nat.min_eq_left h'] at h; exact h
+      · rw [Nat.min_eq_right h'] at h; omega
+    rw [this, Nat.zero_mul] at h2
+    omega
+  rw [h5] at h6 h7 ⊢
+  generalize (p.pagenum - 1) * pagelen = A at *
+  generalize p.pagenum * pagelen = B at *
+  generalize pagenum * pagelen = C at *
+  rcases Nat.eq_zero_or_pos p.pagenum with h0 | h0
+  · have := hzero h0
+    simp only [Nat.min_def]
+    repeat' split
+    all_goals omega
+  · have := hsucc h0
+    simp only [Nat.min_def]
+    repeat' split
+    all_goals omega
+
+/-- `page_slice` on a concrete ranking of 7 hits: page 2 of 3-hit pages, and a request beyond the
+    last page (clamped to the last page, which is shorter). -/
+example : pageHits [10, 11, 12, 13, 14, 15, 16] 2 3 = .ok [13, 14, 15] ∧
+    pageHits [10, 11, 12, 13, 14, 15, 16] 9 3 = .ok [16] := by decide
+
 end WM.C14
